@@ -1018,7 +1018,13 @@ pub(crate) fn decode_fieldvec<F: FieldElement>(
     count: usize,
     input: &mut Cursor<&[u8]>,
 ) -> Result<Vec<F>, CodecError> {
-    let mut vec = Vec::with_capacity(count);
+    // Size the allocation by what the remaining input can actually hold: `count` comes from the
+    // decoding parameter (or the wire) and may be far larger than the input.
+    let remaining = input
+        .get_ref()
+        .len()
+        .saturating_sub(usize::try_from(input.position()).unwrap_or(usize::MAX));
+    let mut vec = Vec::with_capacity(count.min(remaining / F::ENCODED_SIZE));
     let mut buffer = [0u8; 64];
     assert!(
         buffer.len() >= F::ENCODED_SIZE,
